@@ -20,7 +20,7 @@ RULE = (
     "values at the width limits; floats that need 17 significant digits; strings with blanks, '#', braces, "
     'brackets, words that look like other literals and, as a separate class, quotes / $ / backslash; a none value '
     'for the back-ends that can express it) exported through every back-end with generated options (units on/off, '
-    '#define / const selections, renaming on/off, select by query or tags, optionally after another selection on '
+    '#define / const selections, renaming on/off, select by query, by tags or by both together, optionally after another selection on '
     'the same exporter object); in two thirds of the cases ONE parsed environment serves all back-ends of the '
     "case, in a rotated order, and the first back-end is exported once more at the end. Oracle = the format's own "
     "reader: DIP re-parse; json / yaml / toml loaders; bash 'source' + 'declare -p'; generated printer programs "
@@ -100,12 +100,21 @@ def env_case(draw):
         params.append({"path": [g + "es", "count"], "type": "int", "shape": [], "val": 7, "unit": None, "tag": False})
         params.append({"path": [g + "size"], "type": "int", "shape": [], "val": 8, "unit": None, "tag": False})
     n = len(params)
+    select = draw(st.sampled_from([None, None, None, "tags", "query", "both"]))
+    if select == "both" and len(params[0]["path"]) < 2:
+        select = "query"
+    if select == "both":
+        # query AND tags: a tagged and an untagged member of the queried group, so that the intersection is neither
+        # empty nor the whole group
+        params[0]["tag"] = True
+        params.append({"path": [params[0]["path"][0], "untagged"], "type": "int", "shape": [], "val": 9, "unit": None, "tag": False})
+        n = len(params)
     scalars = [i for i, p in enumerate(params) if not p["shape"] and p["val"] is not None]
     define = draw(st.lists(st.sampled_from(scalars), max_size=2, unique=True)) if scalars else []
     const = draw(st.lists(st.sampled_from(range(n)), max_size=2, unique=True))
     return {"params": params, "units": draw(st.booleans()), "rename": draw(st.sampled_from([True, True, False])),
             "define": define, "const": const,
-            "select": draw(st.sampled_from([None, None, None, "tags", "query"])),
+            "select": select,
             "share_env": draw(st.sampled_from([True, True, False])), "rotate": draw(st.integers(0, 8)),
             "preselect": draw(st.sampled_from([None, None, "query", "tags"])),
             "backends": draw(st.sampled_from([BACKENDS, BACKENDS, ["dip", "json", "yaml", "toml", "bash"], ["c", "cpp", "fortran", "rust"]]))}
@@ -157,6 +166,9 @@ def selected(case):
     ps = case["params"]
     if case["select"] == "tags":
         return [p for p in ps if p["tag"]]
+    if case["select"] == "both":
+        # a query and tags given together select the nodes that satisfy both
+        return [p for p in selected(dict(case, select="query")) if p["tag"]]
     if case["select"] == "query":
         # a query 'box.*' returns the children under names relative to 'box' (pinned by the repository's own test)
         first = ps[0]["path"]
@@ -568,7 +580,7 @@ def read_fortran(text, ps, case, tmp):
     with open(os.path.join(d, "main.f90"), "w") as f:
         f.write("\n".join(L) + "\n")
     rc, out, err = run(["gfortran", "-w", "-o", "prog", "config.f90", "main.f90"], d)
-    long_lines = [l for l in text.splitlines() if len(l) > 132]
+    long_lines = [l for l in text.splitlines() if len(l.encode("utf-8")) > 132]   # gfortran counts bytes
     if rc != 0 and long_lines:
         # free-form source lines are limited to 132 columns: report that, then lift the limit so that the values
         # behind it are still examined
@@ -698,6 +710,8 @@ def do_export(backend, env, case, ps_all):
             exp.select(tags=["selection"])
         elif case["select"] == "query":
             exp.select(query=query_of(case))
+        elif case["select"] == "both":
+            exp.select(query=query_of(case), tags=["selection"])
         elif pre:
             exp.select()
         if backend in ("json", "yaml", "toml"):
